@@ -44,6 +44,8 @@ def run(ctx):
     wake2(ctx, facts)
     guards(ctx, facts)
     cursors(ctx, facts)
+    ring(ctx, facts)
+    ring_ops(ctx, facts)
     ctx.assume("std::task::Waker, std::sync::Mutex and AtomicUsize behave as documented")
 
 
@@ -335,24 +337,25 @@ def cursors(ctx, facts):
             except (IndexError, TypeError):
                 ok = False
             ctx.ob("WHO-cursor", inst, ok, f"{field} := {str(e)[:200]}" if ok else f"{field} is assigned {str(e)[:200]}, not the documented cursor update", site_of(b, bb, idx))
-    # arithmetic shape of the helpers
-    shapes = {
-        "inc": lambda e: e[0] == "call" and e[1].endswith("CircularBuf::wrap") and e[2][1][0] == "bin" and e[2][1][1] == "Add",
-        "wrap": lambda e: e[0] == "bin" and e[1] == "Rem" and e[3][0] == "bin" and e[3][1] == "Mul" and ("const", 2) in (e[3][2], e[3][3]) and any(x[0] == "call" and x[1].endswith("::len") for x in (e[3][2], e[3][3])),
-        "mask": lambda e: e[0] == "bin" and e[1] == "Rem" and e[3][0] == "call" and e[3][1].endswith("::len"),
-    }
-    for name, shape in shapes.items():
+    # arithmetic of the helpers, by evaluation (RING evaluates inc / len / range built on them)
+    from rules.C13 import ieval, NoEval
+    CAP = ("call", "std::vec::Vec::<T, A>::len", (("arg", 1, "data"),))
+    for name, ref in (("wrap", lambda v, N: v % (2 * N)), ("mask", lambda v, N: v % N)):
         b = facts.bodies.get(CB + name)
         if b is None:
             ctx.missing("WHO-cursor", CB + name)
             continue
-        e = flow.expr_of(b, {"cp": [0]})
-        ok = False
+        e = flow.inline_calls(facts, flow.expr_of(b, {"cp": [0]}), only=r"circular::CircularBuf::")
+        bad = None
         try:
-            ok = bool(shape(e))
-        except (IndexError, TypeError):
-            ok = False
-        ctx.ob("WHO-cursor", f"shape:{name}", ok, f"{name} = {str(e)[:200]}", site_of(b))
+            for N in range(1, 11):
+                for v in range(4 * N + 1):
+                    got = ieval(e, {CAP: N, ("arg", 2): v})
+                    if got != ref(v, N) and bad is None:
+                        bad = f"capacity {N}: {name}({v}) = {got}, expected {ref(v, N)}"
+        except NoEval as ex:
+            bad = f"cannot evaluate {name} ({ex})"
+        ctx.ob("WHO-cursor", f"shape:{name}", bad is None, f"{name}(v) = v mod {'2N' if name == 'wrap' else 'N'} (evaluated for N <= 10)" if bad is None else bad, site_of(b))
     # OrderingSender.next (atomic)
     n = 0
     for b in facts.non_test_bodies():
@@ -439,3 +442,183 @@ def latest_waker(ctx, facts):
     stale = [r for r in rets if r in reach]
     ok = len(writes) >= 2 and not stale
     ctx.ob("SLOT-latest", "add_waker:stores-given-waker-on-every-path", ok, "the waker handed in is kept (ring slot, overwriting an older one, or overflow list)" if ok else "OperatingState::add_waker can return without keeping the waker it was given: that receiver is never woken when its record arrives", site_of(a, stale[0]) if stale else site_of(a))
+
+
+# ---------------------------------------------------------------------------------------------
+def pieces(facts, b, only):
+    """[(guard facts dominating the definition, expression)] for every definition of the return place; helper calls
+    matching `only` are inlined"""
+    dom = b.dominators()
+    eg = flow.edge_guards(b)
+    out = []
+    for bb, idx, d in b.defs().get(0, []):
+        if idx == "t":
+            if d["k"] != "call":
+                continue
+            e = ("call", F.callee(d)[0], tuple(flow.expr_of(b, a, max_depth=30) for a in d["args"]))
+        elif d["k"] == "use":
+            e = flow.expr_of(b, d["o"], max_depth=30)
+        elif d["k"] == "bin":
+            e = ("bin", d["op"].replace("WithOverflow", ""), flow.expr_of(b, d["a"], max_depth=30), flow.expr_of(b, d["b"], max_depth=30))
+        else:
+            e = flow._expr_place(b, [0], 0, 30)
+        gs = [f for tgt, f in eg if flow.dominates(dom, tgt, bb)]
+        out.append((bb, gs, flow.inline_calls(facts, e, only=only)))
+    return out
+
+
+def ring(ctx, facts):
+    """Index arithmetic of the circular send buffer, evaluated over every small configuration."""
+    from rules.C13 import ieval, NoEval
+    ctx.rule("RING: with capacity N and cursors in [0, 2N): len() equals (write - read) mod 2N on every state with at most N bytes stored (both branches, chosen by their own guard), remaining() = N - len(), inc(v, d) = (v + d) mod 2N, and range(p, u) designates exactly u cells of [0, N) starting at p mod N (wrapping) - evaluated from the extracted expressions (helper calls mask / wrap / capacity inlined) for N = 1..10 and every cursor pair")
+    P = "helpers::buffers::circular::CircularBuf::"
+    need = ("len", "remaining", "inc", "range")
+    if not all((P + n) in facts.bodies for n in need):
+        return ctx.missing("RING", "CircularBuf::" + "/".join(need))
+    ctx.count(bodies=len(need) + 3)
+    only = r"circular::CircularBuf::"
+    CAP = ("call", "std::vec::Vec::<T, A>::len", (("arg", 1, "data"),))
+    W, R = ("arg", 1, "write"), ("arg", 1, "read")
+    OPS = {"Ge": lambda a, c: a >= c, "Gt": lambda a, c: a > c, "Le": lambda a, c: a <= c, "Lt": lambda a, c: a < c, "Eq": lambda a, c: a == c, "Ne": lambda a, c: a != c}
+
+    def value(ps, env):
+        """value of the piece whose guards hold; None if none or several apply"""
+        hit = []
+        for bb, gs, e in ps:
+            ok = True
+            for op, l, r in gs:
+                if op not in OPS:
+                    raise NoEval(f"guard {op}")
+                if not OPS[op](ieval(l, env), ieval(r, env)):
+                    ok = False
+            if ok:
+                hit.append(ieval(e, env))
+        return hit[0] if len(hit) == 1 else None
+
+    # ---- len / remaining
+    bad = None
+    n = 0
+    try:
+        lp = pieces(facts, facts.bodies[P + "len"], only)
+        rp = pieces(facts, facts.bodies[P + "remaining"], only)
+        # remaining() calls len(): inline by evaluating len first
+        for N in range(1, 11):
+            for r in range(2 * N):
+                for w in range(2 * N):
+                    d = (w - r) % (2 * N)
+                    if d > N:
+                        continue
+                    env = {CAP: N, W: w, R: r}
+                    v = value(lp, env)
+                    n += 1
+                    if v != d and bad is None:
+                        bad = f"capacity {N}, read {r}, write {w}: len() = {v}, stored bytes = {d}"
+                    env2 = dict(env)
+                    env2[("call", P + "len", (("arg", 1),))] = d
+                    rv = value(rp, env2)
+                    if rv != N - d and bad is None:
+                        bad = f"capacity {N}, read {r}, write {w}: remaining() = {rv}, free bytes = {N - d}"
+    except NoEval as ex:
+        bad = f"cannot evaluate ({ex})"
+    ctx.ob("RING", "len-and-remaining", bad is None, f"len() = (write - read) mod 2N and remaining() = N - len() on all {n} states with N <= 10" if bad is None else bad, site_of(facts.bodies[P + "len"]))
+    # ---- inc
+    bad = None
+    try:
+        ip = pieces(facts, facts.bodies[P + "inc"], only)
+        for N in range(1, 11):
+            for v0 in range(2 * N):
+                for dl in range(N + 1):
+                    v = value(ip, {CAP: N, ("arg", 2): v0, ("arg", 3): dl})
+                    if v != (v0 + dl) % (2 * N) and bad is None:
+                        bad = f"capacity {N}: inc({v0}, {dl}) = {v}, expected {(v0 + dl) % (2 * N)}"
+    except NoEval as ex:
+        bad = f"cannot evaluate ({ex})"
+    ctx.ob("RING", "inc-wraps-at-2N", bad is None, "inc(v, d) = (v + d) mod 2N" if bad is None else bad, site_of(facts.bodies[P + "inc"]))
+    # ---- range
+    bad = None
+    try:
+        rb = facts.bodies[P + "range"]
+        ps = pieces(facts, rb, only)
+        if len(ps) != 1 or ps[0][2][0] != "call" or not ps[0][2][1].endswith("RangeInclusive::<Idx>::new"):
+            raise NoEval("range() is not a single RangeInclusive::new(start, end)")
+        se, ee = ps[0][2][2]
+        for N in range(1, 11):
+            for p in range(2 * N):
+                for u in range(1, N + 1):
+                    env = {CAP: N, ("arg", 2): p, ("arg", 3): u}
+                    s, e = ieval(se, env), ieval(ee, env)
+                    cells = list(range(s, e + 1)) if e >= s else list(range(s, N)) + list(range(0, e + 1))
+                    want = [(p + i) % N for i in range(u)]
+                    if cells != want and bad is None:
+                        bad = f"capacity {N}: range({p}, {u}) = {s}..={e} designates cells {cells}, expected {want}"
+    except NoEval as ex:
+        bad = f"cannot evaluate ({ex})"
+    ctx.ob("RING", "range-covers-unit-cells", bad is None, "range(p, u) = the u cells p mod N, .., (p + u - 1) mod N" if bad is None else bad, site_of(facts.bodies[P + "range"]))
+
+
+def ring_ops(ctx, facts):
+    ctx.rule("RING-ops: take() copies range(read, d) (both arms of the wrap test, the wrapped arm as data[start..] then data[..=end]) and advances read by the same d = min(read_size, len()); next()/Next::write write range(write, write_size) and advance write by write_size; the wrapped arm is taken exactly when end < start")
+    P = "helpers::buffers::circular::"
+    tb, nb, wb = facts.bodies.get(P + "CircularBuf::take"), facts.bodies.get(P + "CircularBuf::next"), facts.bodies.get(P + "Next::<'_>::write")
+    if None in (tb, nb, wb):
+        return ctx.missing("RING-ops", "CircularBuf::take / next / Next::write")
+    ctx.count(bodies=3)
+    # take
+    rg = flow.find_calls(tb, re.compile(r"CircularBuf::range$"))
+    ic = flow.find_calls(tb, re.compile(r"CircularBuf::inc$"))
+    ok = len(rg) == 1 and len(ic) == 1
+    why = "take() does not compute one range and one cursor increment"
+    if ok:
+        ra = [flow.expr_of(tb, a, max_depth=20) for a in rg[0][1]["args"]]
+        ia = [flow.expr_of(tb, a, max_depth=20) for a in ic[0][1]["args"]]
+        d = ra[2]
+        okd = d[0] == "call" and d[1].endswith("cmp::min") and set(map(str, d[2])) == {str(("arg", 1, "read_size")), str(("call", P + "CircularBuf::len", (("arg", 1),)))}
+        oks = ra[1] == ("arg", 1, "read") and ia[1] == ("arg", 1, "read") and ia[2] == d
+        wr = [s for bb, idx, s in tb.iter_assigns() if any(isinstance(e, list) and e[0] == "f" and e[2] == "read" for e in s["p"][1:])]
+        okw = len(wr) == 1 and "o" in wr[0]["r"] and flow.expr_of(tb, wr[0]["r"]["o"], max_depth=20)[:2] == ("call", P + "CircularBuf::inc")
+        ok = okd and oks and okw
+        why = "copies range(read, d), then read = inc(read, d), d = min(read_size, len())" if ok else ("the number of bytes taken is not min(read_size, len())" if not okd else ("the bytes copied and the cursor advance disagree (range(read, d) vs inc(read, d'))" if not oks else "read is not assigned inc(read, d)"))
+    ctx.ob("RING-ops", "take:copies-what-it-consumes", ok, why, site_of(tb, rg[0][0]) if rg else site_of(tb))
+    # wrap arms of take
+    lt = [(bb, t) for bb, t in flow.find_calls(tb, re.compile(r"PartialOrd::lt$"))]
+    okl = False
+    if len(lt) == 1:
+        a0, a1 = (flow.expr_of(tb, a, max_depth=12) for a in lt[0][1]["args"])
+        okl = a0[0] == "call" and a0[1].endswith("RangeInclusive::<Idx>::end") and a1[0] == "call" and a1[1].endswith("RangeInclusive::<Idx>::start")
+    gt = flow.find_calls(tb, re.compile(r"PartialOrd::gt$"))
+    if not lt and len(gt) == 1:
+        a0, a1 = (flow.expr_of(tb, a, max_depth=12) for a in gt[0][1]["args"])
+        lt = gt
+        okl = a1[0] == "call" and a1[1].endswith("RangeInclusive::<Idx>::end") and a0[0] == "call" and a0[1].endswith("RangeInclusive::<Idx>::start")
+    if len(lt) == 1:
+        sw = flow.next_switch(tb, lt[0][1]["t"]) if okl else None
+        ed = flow.switch_edges(tb, sw) if sw is not None else None
+        ext = flow.find_calls(tb, re.compile(r"Vec::<T, A>::extend_from_slice$"))
+        if ed is None:
+            okl = False
+        else:
+            dom = tb.dominators()
+            wrapped = [(bb, t) for bb, t in ext if flow.dominates(dom, ed[1], bb)]
+            straight = [(bb, t) for bb, t in ext if flow.dominates(dom, ed[0], bb)]
+            def kind(t):
+                e = flow.expr_of(tb, t["args"][1], max_depth=10)
+                if e[0] == "call" and e[1].endswith("Index::index"):
+                    r = e[2][1]
+                    if r[0] == "agg" and isinstance(r[1], tuple):
+                        return r[1][1]
+                    if r[0] == "call" and r[1].endswith("CircularBuf::range"):
+                        return "whole"
+                return "?"
+            okl = okl and [kind(t) for _, t in sorted(wrapped)] == ["RangeFrom", "RangeToInclusive"] and [kind(t) for _, t in straight] == ["whole"]
+    ctx.ob("RING-ops", "take:wrap-arms", okl, "end < start => data[start..] then data[..=end]; otherwise data[start..=end]" if okl else "the wrapped read does not copy data[start..] followed by data[..=end] exactly when end < start (bytes reordered or lost at the wrap point)", site_of(tb, lt[0][0]) if lt else site_of(tb))
+    # write side
+    rg = flow.find_calls(nb, re.compile(r"CircularBuf::range$"))
+    ic = flow.find_calls(wb, re.compile(r"CircularBuf::inc$"))
+    okw = False
+    if len(rg) == 1 and len(ic) == 1:
+        ra = [flow.expr_of(nb, a, max_depth=12) for a in rg[0][1]["args"]]
+        ia = [flow.expr_of(wb, a, max_depth=12) for a in ic[0][1]["args"]]
+        ix = flow.find_calls(wb, re.compile(r"IndexMut::index_mut$"))
+        okix = len(ix) == 1 and flow.expr_of(wb, ix[0][1]["args"][1], max_depth=8) == ("arg", 1, "range")
+        okw = ra[1:] == [("arg", 1, "write"), ("arg", 1, "write_size")] and ia[1:] == [("arg", 1, "buf", "write"), ("arg", 1, "buf", "write_size")] and okix
+    ctx.ob("RING-ops", "write:fills-what-it-advances", okw, "writes range(write, write_size), then write = inc(write, write_size)" if okw else "the cells written and the advance of the write cursor disagree", site_of(wb, ic[0][0]) if ic else site_of(wb))
